@@ -55,19 +55,23 @@ theorem junction_flip (d : Elem) (isAnd n : Bool) (xs ys : List MDoc)
   cases isAnd <;> cases n <;> simp [junction, hA, hO]
 
 theorem convRange_flip (d : Elem) (k : String) (c1 c2 : Cond) (isAnd : Bool) (a : JV) (n : Bool)
-    (h1 : ∀ x, opOf c1 x ≠ .empty) (h2 : ∀ x, opOf c2 x ≠ .empty) (ha : isArr a = true) :
+    (h1 : ∀ x, opOf c1 x ≠ .empty) (h2 : ∀ x, opOf c2 x ≠ .empty) :
     mEval d (convRange k c1 c2 isAnd a (!n)) = (mEval d (convRange k c1 c2 isAnd a n)).map (!·) := by
+  have bad : mEval d (if (!n) = true then MDoc.all else MDoc.nothing) =
+      (mEval d (if n = true then MDoc.all else MDoc.nothing)).map (!·) := by
+    cases n <;> simp [mEval]
   cases a with
   | arr xs =>
     match xs with
-    | [] => simp [convRange, mEval]
-    | [_] => simp [convRange, mEval]
-    | l :: u :: _ =>
+    | [] => simpa [convRange] using bad
+    | [_] => simpa [convRange] using bad
+    | [l, u] =>
       simp only [convRange]
       apply junction_flip
       · simp [mEvalList, convCond_flip d k c1 l n (h1 l), convCond_flip d k c2 u n (h2 u)]
       · rfl
-  | _ => simp [isArr] at ha
+    | _ :: _ :: _ :: _ => simpa [convRange] using bad
+  | _ => simpa [convRange] using bad
 
 theorem convertList_isEmpty (es : List HasE) (n : Bool) : (convertList es n).isEmpty = es.isEmpty := by
   cases es <;> simp [convertList]
@@ -78,9 +82,9 @@ mutual
     | .cond k c a, n, h => by
       simp only [translatable] at h
       cases c <;> simp only [convert] <;> simp only [leafTranslatable] at h
-      case inside => exact convRange_flip d k _ _ _ a n (by intro x; simp [opOf]) (by intro x; simp [opOf]) h
-      case outside => exact convRange_flip d k _ _ _ a n (by intro x; simp [opOf]) (by intro x; simp [opOf]) h
-      case between => exact convRange_flip d k _ _ _ a n (by intro x; simp [opOf]) (by intro x; simp [opOf]) h
+      case inside => exact convRange_flip d k _ _ _ a n (by intro x; simp [opOf]) (by intro x; simp [opOf])
+      case outside => exact convRange_flip d k _ _ _ a n (by intro x; simp [opOf]) (by intro x; simp [opOf])
+      case between => exact convRange_flip d k _ _ _ a n (by intro x; simp [opOf]) (by intro x; simp [opOf])
       case unset => simp at h
       all_goals exact convCond_flip d k _ a n (by simp [opOf])
     | .and es, n, h => by
